@@ -202,7 +202,10 @@ func checkC08(c *Check) {
 		for _, path := range c08Paths {
 			for _, ch := range chars {
 				for _, pos := range []string{"first", "middle", "last", "only"} {
-					if !c.Thorough() {
+					// run-time origins strip terminators/guards from the end of the value: the last character is
+					// never thinned out on the shortest path
+					keep := (origin == "file" || origin == "cmd" || origin == "stdin") && path == "print" && (pos == "last" || pos == "only")
+					if !c.Thorough() && !keep {
 						// quick tier: a seed-selected quarter of the table; letters/digits thinned out
 						isAlnum := (ch >= 'a' && ch <= 'z') || (ch >= 'A' && ch <= 'Z') || (ch >= '0' && ch <= '9')
 						if isAlnum && ch != 'n' && ch != 'e' && ch != '0' {
